@@ -90,6 +90,12 @@ impl OpEnv {
 #[allow(clippy::too_many_arguments)]
 /// `strict_pre`: skip calls whose documented precondition does not hold (deflatePrime after the first deflate call).
 pub fn run_dops<Zx: Z>(level: i32, method: i32, wbits_arg: i32, mem_level: i32, strategy: i32, ops: &[DOp], env: &OpEnv, guarded: bool, probe: bool, tail_room: usize, strict_pre: bool, rec: Option<&mut Case>) -> Result<DRun, String> {
+    run_dops_ex::<Zx>(level, method, wbits_arg, mem_level, strategy, ops, env, guarded, probe, tail_room, strict_pre, false, rec)
+}
+
+/// `skip_prime_when_pending`: see the comment at the Prime arm (lock-step comparisons only)
+#[allow(clippy::too_many_arguments)]
+pub fn run_dops_ex<Zx: Z>(level: i32, method: i32, wbits_arg: i32, mem_level: i32, strategy: i32, ops: &[DOp], env: &OpEnv, guarded: bool, probe: bool, tail_room: usize, strict_pre: bool, skip_prime_when_pending: bool, rec: Option<&mut Case>) -> Result<DRun, String> {
     let mut rec = rec;
     unsafe {
         let mut s = if guarded { Strm::guarded(0xC3) } else { Strm::plain() };
@@ -224,6 +230,16 @@ pub fn run_dops<Zx: Z>(level: i32, method: i32, wbits_arg: i32, mem_level: i32, 
                     // zlib.h: deflatePrime "must be used before the first deflate() call after a deflateInit2() or deflateReset()"
                     o.ret = 99;
                 }
+                DOp::Prime(_, _) if skip_prime_when_pending && {
+                    let mut pend: u32 = 0;
+                    let mut bits: i32 = 0;
+                    Zx::deflatePending(s.p(), &mut pend, &mut bits) == Z_OK && pend > 0
+                } =>
+                {
+                    // zlib / zlib-ng append primed bits at pending_buf[pending] although unflushed bytes start at
+                    // pending_out: priming while output is pending scrambles the reference's own stream
+                    o.ret = 98;
+                }
                 DOp::Prime(b, v) => {
                     if (0..32).contains(&b) && (v as u32) >> b != 0 || b >= 32 && v < 0 {
                         dirty_prime = true;
@@ -336,7 +352,7 @@ pub fn run_dops<Zx: Z>(level: i32, method: i32, wbits_arg: i32, mem_level: i32, 
                     }
                 }
             }
-            if !live && !matches!(op, DOp::End | DOp::Deflate { .. } | DOp::Bound(_)) && o.ret != Z_STREAM_ERROR as i64 && o.ret != 99 {
+            if !live && !matches!(op, DOp::End | DOp::Deflate { .. } | DOp::Bound(_)) && o.ret != Z_STREAM_ERROR as i64 && o.ret != 99 && o.ret != 98 {
                 return Err(format!("{}: op {oi} {} on an ended stream returned {}", Zx::NAME, op.tag(), o.ret));
             }
             probe_inv!(format!("op {oi} {}", op.tag()));
